@@ -136,13 +136,14 @@ SUBCHECKS = {
         rule="case = (GCC shape, ladder, iso|glide, contribution); non-trivial = a lower-grade level receives a duty strictly between 0 and the target",
         cases=U.cases, run=table_run,
         requires=("OpenPinch.analysis.gcc_manipulation:get_additional_GCCs", "OpenPinch.analysis.utility_targeting:get_utility_targets"),
-        bound=lambda t: "{0..3}^n n<=5, ladders <=2 levels" if t == "quick" else "{0..3}^n n<=6, ladders <=3 levels",
+        bound=lambda t: "{0..3}^n n<=5, ladders <=2 levels, isothermal / gliding / mixed" if t == "quick" else "{0..3}^n n<=6, ladders <=3 levels, isothermal / gliding / mixed, two contributions",
     ),
     "service": SubCheck(
         name="service",
         describe="pinch_analysis_service: H_net_ut between 0 and H_net_actual on every row of the DI table; duties feasible and sequentially maximal vs the exact cascade",
         rule="case = stream multiset x 7 utility sets; non-trivial as above",
         cases=service_cases, run=service_run,
-        bound=lambda t: "multisets <=2 (K=4, dt=d/2) x 7 utility sets" if t == "quick" else "multisets <=3 (K=4, dt=d/2) x 7 utility sets",
+        bound=lambda t: ("multisets <=2 (K=4, dt=d/2) x 12 utility sets" if t == "quick" else "multisets <=3 (K=4, dt=d/2) x 12 utility sets")
+        + " + pairs in two zones and with unit-operation targeting on (every zone's and operation's target)",
     ),
 }
